@@ -74,6 +74,13 @@ def sources(tier, seed, ctx):
                 for add_outputs in (False, True):
                     srcs.append({'fn': 'inc', 'il': il, 'ol': ol, 'big': big, 'gen': False, 'add_outputs': add_outputs,
                                  'given_labels': (il + ol) % 2 == 0, 'host': _h(rng, 0.6)})
+    # the operand is the circuit's own (live) output list and the results are marked as outputs while it is being read
+    for il in (1, 2, 3):
+        for ol in (il, il + 1, il + 3):
+            for big in (False, True):
+                srcs.append({'fn': 'inc', 'il': il, 'ol': ol, 'big': big, 'gen': False, 'add_outputs': True, 'given_labels': bool(ol % 2), 'host': None, 'live': True})
+                srcs.append({'fn': 'inc', 'il': il, 'ol': ol, 'big': big, 'gen': False, 'add_outputs': True, 'given_labels': False,
+                             'host': {'seed': rng.randrange(10**6), 'ni': 3, 'ng': 5}, 'live': True})
     # operand lists shared between calls: the same list object as both operands, then reused
     for fnn in ('sub', 'subc', 'divmod'):
         for n in (1, 2, 3):
@@ -236,6 +243,11 @@ def _record(src):
                 a, res, om, outl = list(c.inputs), list(c.outputs), 'set', list(c.outputs)
             else:
                 c, ops = A.make_host(src, il)
+                live = False
+                if src.get('live') and len(set(ops)) == len(ops):
+                    # the operand IS the circuit's live output list ("increment the number this circuit computes")
+                    c.set_outputs(list(ops))
+                    live = True
                 pre = project(c)
                 a = ops
                 kw = {}
@@ -243,7 +255,7 @@ def _record(src):
                 if src.get('given_labels'):
                     given = [f'res_{j}' for j in range(ol)]
                     kw['result_labels'] = list(given)
-                res = gg.add_plus_one(c, list(a), **_ao(src), **A.bkw(big), **kw)
+                res = gg.add_plus_one(c, c.outputs if live else list(a), **_ao(src), **A.bkw(big), **kw)
                 if given is None:
                     ol = len(res)
                 om = 'appendset' if src['add_outputs'] else 'same'
